@@ -1,6 +1,7 @@
 """C01 -- analytic edge Jacobians are the exact derivative of the edge error (per configuration and vertex)."""
 from ..poly import Poly
 from ..interp import Arr, diff_at_zero
+from ..algebra import snapshot, scribble
 from ..algebra import (CONFIGS, CDIM, cfg_name, run_obligation, run_tasks, record, ObFail, require_same, nterms, delta_vec,
                        zero_hook, sym_config, make_edge)
 
@@ -47,7 +48,14 @@ def stale_state_obligation(cfg):
         e = make_edge(it, cfg, p1, p2, z, off)
         it.call_method(e, "calc_error", [])
         it.call_method(e, "calc_chi2", [])
-        it.call_method(e, "calc_jacobians", [])
+        Ja = it.call_method(e, "calc_jacobians", [])
+        seen = snapshot(Ja)
+        scribble(Ja)                                   # the caller owns what it was handed (scaling a Jacobian in place, ...)
+        Jb = it.call_method(e, "calc_jacobians", [])
+        for k in (0, 1):
+            require_same(Jb[k], seen[k], "%s: after a caller modified the arrays returned by calc_jacobians(), the next call returns "
+                                         "different Jacobians (shared storage is handed out)" % cfg_name(cfg))
+        scribble(Jb)
         q1, q2, zz, oo = sym_config(cfg, unit=True, names=("q1", "q2", "zz", "oo"))
         for old, new in ((p1, q1), (p2, q2), (z, zz), (off, oo)):
             if old is not None:
